@@ -196,6 +196,37 @@ where
         self.tr.line(&format!("\"ev\":\"op\",{},\"row\":{},\"dup\":{},{}", desc, list_json(&row), dup, f));
     }
 
+    /// a query whose yield is too long to be logged item by item: the number of items, the number of
+    /// distinct ids among them and the first 40 ids are logged (a summary of what was observed - what
+    /// was to be expected is TLC's business)
+    pub fn query_summary(&mut self, a: i64, b: i64, time: i32, take: i64) {
+        self.now = time;
+        let desc = format!("\"op\":\"queryn\",\"a\":{},\"b\":{},\"t\":{},\"take\":{},\"raw\":\"{}:{}\"", self.off(a), self.off(b), time, take, a, b);
+        self.tr.pre(&format!("{},\"out\":\"aborted\"", desc));
+        let cap_items = self.next_id as i64 + 8;
+        let t = self.t.as_mut().unwrap();
+        let mut n = 0i64;
+        let mut seen = std::collections::HashSet::new();
+        let mut first: Vec<i64> = vec![];
+        let o = observe(0, || {
+            for v in t.iter_by_range(SegRange { min: R::from_i64(a), max: R::from_i64(b) }, time) {
+                if take >= 0 && n >= take {
+                    break;
+                }
+                n += 1;
+                seen.insert(v.id);
+                if first.len() < 40 {
+                    first.push(v.id as i64);
+                }
+                if n > cap_items {
+                    break;
+                }
+            }
+        });
+        let f = out_fields(&o);
+        self.tr.line(&format!("\"ev\":\"op\",{},\"n\":{},\"nd\":{},\"res\":{},{}", desc, n, seen.len(), list_json(&first), f));
+    }
+
     /// n values with the same range and expiration, inserted by one observed call (no chunk dump)
     pub fn bulk(&mut self, a: i64, b: i64, e: i32, n: i32) {
         let id0 = self.next_id;
@@ -408,10 +439,17 @@ where
         let mut s: SegSession<R> = SegSession::open(&mut *tr, lo, hi);
         let (a, z) = bucket(rng.range(0, nb - 1));
         s.bulk(a, z, 100, bulk);
-        s.insert(a, z, 100);
-        s.query(a, z, 5, -1, 0, false);
-        s.query(a, z, 5, 10, 0, false);
-        s.query(lo, hi, 6, -1, 0, false);
+        if bulk <= 5000 {
+            s.insert(a, z, 100);
+            s.query(a, z, 5, -1, 0, false);
+            s.query(a, z, 5, 10, 0, false);
+            s.query(lo, hi, 6, -1, 0, false);
+        } else {
+            // a list longer than 65 535 copies: the yield is logged in summary
+            s.query_summary(a, z, 5, -1);
+            s.query_summary(a, z, 5, 10);
+            s.query_summary(lo, hi, 6, -1);
+        }
     }
 }
 
@@ -573,6 +611,11 @@ where
             Some("bulk") => {
                 if let Some((a, b)) = fstr(line, "raw").as_deref().and_then(pair) {
                     s.bulk(a, b, fnum(line, "e").unwrap_or(0) as i32, fnum(line, "n").unwrap_or(0) as i32);
+                }
+            }
+            Some("queryn") => {
+                if let Some((a, b)) = fstr(line, "raw").as_deref().and_then(pair) {
+                    s.query_summary(a, b, fnum(line, "t").unwrap_or(0) as i32, fnum(line, "take").unwrap_or(-1));
                 }
             }
             Some("clear") => s.clear(),
